@@ -1489,7 +1489,7 @@ pub fn check(case: &Case) -> CheckResult {
 }
 
 pub fn run(args: &Args) -> i32 {
-    let mut ev = Evidence::new(args, "exploration");
+    let mut ev = Evidence::new(args, "fault_enumeration");
     ev.rule(
         "hub",
         "one scenario per case: a real CommandHub::run() in a thread (worker_timeout 1 s, no automatic restart) on a private unix socket, 1..3 fake workers registered through Server::register_worker (socket pairs, scripted per (worker, request): Ok, Failure, Silent, CloseChannel, DuplicateOk, LateOk at +2.5 s, ProcessingThenOk, ProcessingOnly, UnknownId; in-time answers delayed 0/20/60 ms), 1..3 concurrent clients each sending 1..2 requests in sequence (AddCluster, AddBackend, QueryClusterById, QueryClustersHashes, Status, LoadState of a generated 1..2-request file; pauses 0/20/60 ms), then a Status from a fresh client and a scripted HardStop/SoftStop (judged like a request). Oracle per request: exactly one final Response within 4 s (none after it for 300 ms), mentioning only its own tag; Ok iff every worker that received it sent a terminal Ok in time (workers whose channel closed >= 300 ms before it was sent are not counted; requests racing with a channel close are not judged); Status: Ok with a per-worker run state that tells the truth; closing Status truthful; run() returns within 3 s of the stop answer; hub thread never panics. Non-trivial: >= 1 non-Ok behaviour and (>= 2 clients or >= 2 workers); distinct by case hash.",
